@@ -1,10 +1,11 @@
 """Configuration grids for the program interpreter (DESIGN.md Appendix B)."""
 
 
-def TA(flav, c, m, s, ae=0, size_t="std::size_t", maxsz=0):
+def TA(flav, c, m, s, ae=0, size_t="std::size_t", maxsz=0, construct=0):
     b = lambda x: "true" if x else "false"
-    return ("vh::TrackAlloc<vh::%s, vh::ACfg<%s, %s, %s, %s, %s, %d> >" % (flav, b(c), b(m), b(s), b(ae), size_t, maxsz),
-            "TA(%d,%d,%d%s)" % (c, m, s, ",ae=1" if ae else ""))
+    extra = ("" if not ae else ",ae=1") + ("" if size_t == "std::size_t" else "," + size_t.replace("std::", "")) + (",construct" if construct else "")
+    return ("vh::TrackAlloc<vh::%s, vh::ACfg<%s, %s, %s, %s, %s, %d, %s> >" % (flav, b(c), b(m), b(s), b(ae), size_t, maxsz, b(construct)),
+            "TA(%d,%d,%d%s)" % (c, m, s, extra))
 
 
 def STD(flav):
@@ -53,6 +54,10 @@ QUICK = [
     Cfg("q12", "NTA", 4, 8, TA("NTA", 1, 1, 1, ae=1)),
     Cfg("q13", "NT", 0, 3, TA("NT", 1, 0, 1), twin="q9"),
     Cfg("q14", "TRIV", 5, 2, TA("TRIV", 0, 0, 0)),
+    # allocator with construct()/destroy() members: byte-copy shortcuts must be off even for TRIV
+    Cfg("q15", "TRIV", 3, 8, TA("TRIV", 0, 1, 0, construct=1)),
+    # narrow (16-bit) size_type: sizes and capacities are stored narrow, computed wide
+    Cfg("q16", "NT", 3, 8, TA("NT", 0, 1, 0, size_t="std::uint16_t")),
 ]
 
 # Thorough grid adds a pairwise-ish cover of flavour x (N,M) x allocator.
